@@ -324,3 +324,716 @@ theorem parseExpr_ok : ∀ fuel : Nat,
                   exact EOk.trans (f1.trans f3) (ihO t _ _ (hps'.mono f3))
 
 end Tw
+
+/-! ### statements -/
+
+namespace Tw
+
+def SlotsGood (sl : List SlotUse) : Prop := ∀ s ∈ sl, Stmt.badFreeList s.body = true
+
+/-- what the loader reads besides the statements: the `@insert` table and the slots of each
+    component use -/
+def TablesGood (p : PS) : Prop :=
+  (∀ x ∈ p.inserts, x.2.badFree = true) ∧ (∀ cu ∈ p.components, SlotsGood cu.slots)
+
+def Good (p : PS) : Prop := Dirty p ∨ TablesGood p
+
+structure Ext (p p' : PS) : Prop where
+  dirty : Dirty p → Dirty p'
+  good : Good p → Good p'
+
+theorem Ext.rfl' (p : PS) : Ext p p := ⟨id, id⟩
+theorem Ext.trans {p q r : PS} (h1 : Ext p q) (h2 : Ext q r) : Ext p r :=
+  ⟨fun h => h2.dirty (h1.dirty h), fun h => h2.good (h1.good h)⟩
+theorem Frame.ext {p p' : PS} (f : Frame p p') : Ext p p' :=
+  ⟨f.dirty, fun h => h.elim (fun d => Or.inl (f.dirty d)) fun g => Or.inr (by
+    unfold TablesGood at g ⊢; rw [f.ins, f.comps]; exact g)⟩
+
+/-- `b` holds unless an error was recorded -/
+def DG (p : PS) (b : Bool) : Prop := Dirty p ∨ b = true
+
+theorem DG.mono {p p' : PS} {b : Bool} (e : Ext p p') (h : DG p b) : DG p' b := h.imp e.dirty id
+theorem DG.and {p : PS} {a c : Bool} (h1 : DG p a) (h2 : DG p c) : DG p (a && c) := by
+  rcases h1 with h1 | h1
+  · exact Or.inl h1
+  · exact h2.imp id (by intro x; simp [h1, x])
+theorem DG.tt (p : PS) : DG p true := Or.inr rfl
+theorem DG.dirty {p : PS} (h : Dirty p) (b : Bool) : DG p b := Or.inl h
+
+def SOk (p : PS) (r : Stmt × PS) : Prop := Ext p r.2 ∧ (r.1.isBad = true ∨ DG r.2 r.1.badFree)
+def BOk (p : PS) (r : List Stmt × PS) : Prop := Ext p r.2 ∧ DG r.2 (Stmt.badFreeList r.1)
+
+theorem stmt_badFreeList_append (a c : List Stmt) :
+    Stmt.badFreeList (a ++ c) = (Stmt.badFreeList a && Stmt.badFreeList c) := by
+  induction a with
+  | nil => simp [Stmt.badFreeList]
+  | cons x r ih => simp [Stmt.badFreeList, ih, Bool.and_assoc]
+
+theorem badFreeAlts_append (a c : List (Expr × List Stmt)) :
+    Stmt.badFreeAlts (a ++ c) = (Stmt.badFreeAlts a && Stmt.badFreeAlts c) := by
+  induction a with
+  | nil => simp [Stmt.badFreeAlts]
+  | cons x r ih => obtain ⟨e, ss⟩ := x; simp [Stmt.badFreeAlts, ih, Bool.and_assoc]
+
+theorem expectPeek_cases {p : PS} {t : TT} {ok : Bool} {p1 : PS} (h : p.expectPeek t = (ok, p1)) :
+    Ext p p1 ∧ (ok = false → Dirty p1) := by
+  have f := frame_expectPeek p t
+  have d := expectPeek_false p t
+  rw [h] at f d
+  exact ⟨f.ext, d⟩
+
+theorem ext_next (p : PS) : Ext p p.next := (frame_next p).ext
+theorem ext_err (p : PS) (l : Nat) (c : String) (a : List Bytes) : Ext p (p.err l c a) := (frame_err p l c a).ext
+
+theorem isBad_or_badFree_opt (s : Stmt) {p : PS} (h : s.isBad = true ∨ DG p s.badFree) :
+    DG p (Stmt.badFreeOptS (if s.isBad = true then none else some s)) := by
+  split
+  · exact DG.tt p
+  · rename_i hb
+    rcases h with h | h
+    · exact absurd h hb
+    · exact h
+
+theorem mapSet_mem {α} (m : List (Bytes × α)) (k : Bytes) (v : α) (x : Bytes × α) (h : x ∈ mapSet m k v) :
+    x ∈ m ∨ x = (k, v) := by
+  induction m with
+  | nil => simp [mapSet] at h; exact Or.inr h
+  | cons y r ih =>
+    unfold mapSet at h
+    split at h
+    · rcases List.mem_cons.mp h with h | h
+      · exact Or.inr h
+      · exact Or.inl (List.mem_cons_of_mem _ h)
+    · rcases List.mem_cons.mp h with h | h
+      · exact Or.inl (h ▸ List.mem_cons_self)
+      · exact (ih h).imp (List.mem_cons_of_mem _) id
+
+end Tw
+
+namespace Tw
+
+theorem ext_expectPeek (p : PS) (t : TT) : Ext p (p.expectPeek t).2 := (frame_expectPeek p t).ext
+theorem dirty_expectPeek {p : PS} {t : TT} (h : (!(p.expectPeek t).1) = true) : Dirty (p.expectPeek t).2 :=
+  expectPeek_false p t (by simpa using h)
+theorem dirty_expectPeek' {p : PS} {t : TT} (h : ¬ (p.expectPeek t).1 = true) : Dirty (p.expectPeek t).2 :=
+  expectPeek_false p t (by simpa using h)
+
+theorem frame_aliasPath (p : PS) (s : String) : Frame p (aliasPath p s).2 := by
+  unfold aliasPath
+  simp only []
+  split
+  · exact frame_err _ _ _ _
+  · split <;> exact Frame.rfl' p
+
+def SlOk (p : PS) (r : List SlotUse × PS) : Prop := Ext p r.2 ∧ (Dirty r.2 ∨ SlotsGood r.1)
+
+section
+variable {pe : Nat → PS → Expr × PS} {pl : TT → PS → List Expr × PS} {pst : PS → Stmt × PS}
+  {pbody : PS → List Stmt × PS} {pblock : List Stmt → PS → List Stmt × PS}
+  {ptail : Token → Expr → List Stmt → List (Expr × List Stmt) → PS → Stmt × PS}
+  {pslots : List SlotUse → PS → List SlotUse × PS} {pskip : PS → PS}
+
+theorem embeddedCode_ok (hpe : ∀ prec p, EOk p (pe prec p)) (p : PS) : SOk p (parseEmbeddedCode pe p) := by
+  unfold parseEmbeddedCode
+  simp only []
+  split
+  · exact ⟨(ext_next p).trans (ext_err _ _ _ _), Or.inl rfl⟩
+  · split
+    · split
+      · exact ⟨(ext_next _).trans ((ext_expectPeek _ _).trans ((ext_next _).trans (ext_err _ _ _ _))), Or.inl rfl⟩
+      · exact ⟨(ext_next _).trans ((ext_expectPeek _ _).trans ((ext_next _).trans (hpe _ _).1.ext)),
+          Or.inr (by simp only [Stmt.badFree]; exact (hpe _ _).2)⟩
+    · refine ⟨?_, Or.inr ?_⟩
+      · split
+        · exact (ext_next _).trans ((hpe _ _).1.ext.trans (ext_next _))
+        · exact (ext_next _).trans (hpe _ _).1.ext
+      · simp only [Stmt.badFree]
+        split
+        · exact DG.mono (ext_next _) (hpe _ _).2
+        · exact (hpe _ _).2
+
+theorem condDirective_ok (hpe : ∀ prec p, EOk p (pe prec p)) (p : PS) (mk : Token → Expr → Stmt)
+    (hmk : ∀ t e, (mk t e).badFree = e.badFree) : SOk p (parseCondDirective pe p mk) := by
+  unfold parseCondDirective
+  simp only []
+  split
+  · exact ⟨ext_expectPeek _ _, Or.inl rfl⟩
+  · exact ⟨(ext_expectPeek _ _).trans ((ext_next _).trans (hpe _ _).1.ext),
+      Or.inr (by simp only [hmk]; exact (hpe _ _).2)⟩
+
+theorem ifStmt_ok (hpe : ∀ prec p, EOk p (pe prec p)) (hbody : ∀ p, BOk p (pbody p))
+    (htail : ∀ t c cons alts p, DG p c.badFree → DG p (Stmt.badFreeList cons) → DG p (Stmt.badFreeAlts alts) →
+      SOk p (ptail t c cons alts p)) (p : PS) : SOk p (parseIfStmt pe pbody ptail p) := by
+  unfold parseIfStmt
+  simp only []
+  have e1 := ext_expectPeek p .LPAREN
+  generalize p.expectPeek .LPAREN = q1 at e1 ⊢
+  split
+  · exact ⟨e1, Or.inl rfl⟩
+  · have h2 := hpe LOWEST q1.2.next
+    generalize pe LOWEST q1.2.next = q2 at h2 ⊢
+    have e3 := ext_expectPeek q2.2 .RPAREN
+    generalize q2.2.expectPeek .RPAREN = q3 at e3 ⊢
+    have e13 := (e1.trans ((ext_next _).trans h2.1.ext)).trans e3
+    split
+    · exact ⟨e13, Or.inl rfl⟩
+    · have h4 := hbody q3.2
+      generalize pbody q3.2 = q4 at h4 ⊢
+      have ht := htail p.cur q2.1 q4.1 [] q4.2 (DG.mono (e3.trans h4.1) h2.2) h4.2 (DG.tt _)
+      exact ⟨(e13.trans h4.1).trans ht.1, ht.2⟩
+
+theorem loopElse_ok (hbody : ∀ p, BOk p (pbody p)) (p : PS) :
+    Ext p (loopElse pbody p).2 ∧ DG (loopElse pbody p).2 (Stmt.badFreeOpt (loopElse pbody p).1) := by
+  unfold loopElse
+  simp only []
+  split
+  · exact ⟨(ext_next _).trans (hbody _).1, (hbody _).2⟩
+  · exact ⟨Ext.rfl' p, DG.tt _⟩
+
+theorem forClause_ok (hpe : ∀ prec p, EOk p (pe prec p)) (stop : TT) (p : PS) :
+    Ext p (forClause pe stop p).2 ∧ DG (forClause pe stop p).2 (Stmt.badFreeOptS (forClause pe stop p).1) := by
+  unfold forClause
+  simp only []
+  split
+  · exact ⟨(embeddedCode_ok hpe p).1, isBad_or_badFree_opt _ (embeddedCode_ok hpe p).2⟩
+  · exact ⟨Ext.rfl' p, DG.tt _⟩
+
+theorem forCond_ok (hpe : ∀ prec p, EOk p (pe prec p)) (p : PS) :
+    Ext p (forCond pe p).2 ∧ DG (forCond pe p).2 (optBF Expr.badFree (forCond pe p).1) := by
+  unfold forCond
+  simp only []
+  split
+  · refine ⟨(ext_next _).trans (hpe _ _).1.ext, ?_⟩
+    show DG _ (optBF Expr.badFree (if _ then none else some _))
+    split
+    · exact DG.tt _
+    · exact (hpe _ _).2
+  · exact ⟨Ext.rfl' p, DG.tt _⟩
+
+theorem loopBody_ok (hbody : ∀ p, BOk p (pbody p)) (p : PS) :
+    Ext p (parseLoopBody pbody p).2 ∧
+      ∀ body alt, (parseLoopBody pbody p).1 = some (body, alt) →
+        DG (parseLoopBody pbody p).2 (Stmt.badFreeList body) ∧ DG (parseLoopBody pbody p).2 (Stmt.badFreeOpt alt) := by
+  unfold parseLoopBody
+  simp only []
+  have h1 := hbody p
+  generalize pbody p = q1 at h1 ⊢
+  have h2 := loopElse_ok hbody q1.2
+  generalize loopElse pbody q1.2 = q2 at h2 ⊢
+  have e3 := ext_expectPeek q2.2 .END
+  generalize q2.2.expectPeek .END = q3 at e3 ⊢
+  split
+  · refine ⟨(h1.1.trans h2.1).trans e3, ?_⟩
+    intro b a h
+    cases h
+    exact ⟨DG.mono (h2.1.trans e3) h1.2, DG.mono e3 h2.2⟩
+  · exact ⟨(h1.1.trans h2.1).trans e3, by intro b a h; cases h⟩
+
+theorem forStmt_ok (hpe : ∀ prec p, EOk p (pe prec p)) (hbody : ∀ p, BOk p (pbody p)) (p : PS) :
+    SOk p (parseForStmt pe pbody p) := by
+  unfold parseForStmt
+  simp only []
+  have e1 := ext_expectPeek p .LPAREN
+  generalize p.expectPeek .LPAREN = q1 at e1 ⊢
+  split
+  · exact ⟨e1, Or.inl rfl⟩
+  · have h2 := forClause_ok hpe .SEMI q1.2
+    generalize forClause pe .SEMI q1.2 = q2 at h2 ⊢
+    have e3 := ext_expectPeek q2.2 .SEMI
+    generalize q2.2.expectPeek .SEMI = q3 at e3 ⊢
+    split
+    · exact ⟨(e1.trans h2.1).trans e3, Or.inl rfl⟩
+    · have h4 := forCond_ok hpe q3.2
+      generalize forCond pe q3.2 = q4 at h4 ⊢
+      have e5 := ext_expectPeek q4.2 .SEMI
+      generalize q4.2.expectPeek .SEMI = q5 at e5 ⊢
+      split
+      · exact ⟨(((e1.trans h2.1).trans e3).trans h4.1).trans e5, Or.inl rfl⟩
+      · have h6 := forClause_ok hpe .RPAREN q5.2
+        generalize forClause pe .RPAREN q5.2 = q6 at h6 ⊢
+        have e7 := ext_expectPeek q6.2 .RPAREN
+        generalize q6.2.expectPeek .RPAREN = q7 at e7 ⊢
+        have e17 := (((((e1.trans h2.1).trans e3).trans h4.1).trans e5).trans h6.1).trans e7
+        split
+        · exact ⟨e17, Or.inl rfl⟩
+        · have h8 := loopBody_ok hbody q7.2
+          generalize parseLoopBody pbody q7.2 = q8 at h8 ⊢
+          obtain ⟨o, p8⟩ := q8
+          cases o with
+          | none => exact ⟨e17.trans h8.1, Or.inl rfl⟩
+          | some ba =>
+            obtain ⟨body, alt⟩ := ba
+            obtain ⟨hb, ha⟩ := h8.2 body alt rfl
+            refine ⟨e17.trans h8.1, Or.inr ?_⟩
+            simp only [Stmt.badFree]
+            exact ((((DG.mono (((e3.trans h4.1).trans e5).trans ((h6.1.trans e7).trans h8.1)) h2.2).and
+              (DG.mono ((e5.trans h6.1).trans (e7.trans h8.1)) h4.2)).and (DG.mono (e7.trans h8.1) h6.2)).and hb).and ha
+
+theorem eachStmt_ok (hpe : ∀ prec p, EOk p (pe prec p)) (hbody : ∀ p, BOk p (pbody p)) (p : PS) :
+    SOk p (parseEachStmt pe pbody p) := by
+  unfold parseEachStmt
+  simp only []
+  have e1 := ext_expectPeek p .LPAREN
+  generalize p.expectPeek .LPAREN = q1 at e1 ⊢
+  split
+  · exact ⟨e1, Or.inl rfl⟩
+  · have e3 := ext_expectPeek q1.2.next .IN
+    generalize q1.2.next.expectPeek .IN = q3 at e3 ⊢
+    have e13 := (e1.trans (ext_next _)).trans e3
+    split
+    · exact ⟨e13, Or.inl rfl⟩
+    · have h4 := hpe LOWEST q3.2.next
+      generalize pe LOWEST q3.2.next = q4 at h4 ⊢
+      have e5 := ext_expectPeek q4.2 .RPAREN
+      generalize q4.2.expectPeek .RPAREN = q5 at e5 ⊢
+      have e15 := ((e13.trans (ext_next _)).trans h4.1.ext).trans e5
+      split
+      · exact ⟨e15, Or.inl rfl⟩
+      · have h8 := loopBody_ok hbody q5.2
+        generalize parseLoopBody pbody q5.2 = q8 at h8 ⊢
+        obtain ⟨o, p8⟩ := q8
+        cases o with
+        | none => exact ⟨e15.trans h8.1, Or.inl rfl⟩
+        | some ba =>
+          obtain ⟨body, alt⟩ := ba
+          obtain ⟨hb, ha⟩ := h8.2 body alt rfl
+          refine ⟨e15.trans h8.1, Or.inr ?_⟩
+          simp only [Stmt.badFree]
+          exact ((DG.mono (e5.trans h8.1) h4.2).and hb).and ha
+
+end
+end Tw
+
+namespace Tw
+
+theorem ext_setInsert (p : PS) (name : Bytes) (ins : InsertDef) (h : DG p ins.badFree) :
+    Ext p { p with inserts := mapSet p.inserts name ins } := by
+  refine ⟨fun d => d, fun g => ?_⟩
+  rcases h with h | h
+  · exact Or.inl h
+  · rcases g with g | g
+    · exact Or.inl g
+    · refine Or.inr ⟨?_, g.2⟩
+      intro x hx
+      rcases mapSet_mem _ _ _ _ hx with hx | hx
+      · exact g.1 x hx
+      · rw [hx]; exact h
+
+theorem ext_addComponent (p : PS) (cu : CompUse) (n : Nat) (h : Dirty p ∨ SlotsGood cu.slots) :
+    Ext p { p with components := p.components ++ [cu], nextId := n } := by
+  refine ⟨fun d => d, fun g => ?_⟩
+  rcases h with h | h
+  · exact Or.inl h
+  · rcases g with g | g
+    · exact Or.inl g
+    · refine Or.inr ⟨g.1, ?_⟩
+      intro x hx
+      rcases List.mem_append.mp hx with hx | hx
+      · exact g.2 x hx
+      · rw [List.mem_singleton.mp hx]; exact h
+
+section
+variable {pe : Nat → PS → Expr × PS} {pl : TT → PS → List Expr × PS} {pst : PS → Stmt × PS}
+  {pbody : PS → List Stmt × PS} {pblock : List Stmt → PS → List Stmt × PS}
+  {ptail : Token → Expr → List Stmt → List (Expr × List Stmt) → PS → Stmt × PS}
+  {pslots : List SlotUse → PS → List SlotUse × PS} {pskip : PS → PS}
+
+theorem insertStmt_ok (hpe : ∀ prec p, EOk p (pe prec p)) (hbody : ∀ p, BOk p (pbody p)) (p : PS) :
+    SOk p (parseInsertStmt pe pbody p) := by
+  unfold parseInsertStmt
+  simp only []
+  have e1 := ext_expectPeek p .LPAREN
+  generalize p.expectPeek .LPAREN = q1 at e1 ⊢
+  split
+  · exact ⟨e1, Or.inl rfl⟩
+  · split
+    · exact ⟨e1.trans ((ext_next _).trans (ext_err _ _ _ _)), Or.inl rfl⟩
+    · split
+      · have h3 := hpe LOWEST q1.2.next.next.next
+        generalize pe LOWEST q1.2.next.next.next = q3 at h3 ⊢
+        have harg : DG q3.2 (optBF Expr.badFree (if q3.1.isBad = true then none else some q3.1)) := by
+          split
+          · exact DG.tt _
+          · exact h3.2
+        have e3 := (e1.trans ((ext_next _).trans ((ext_next _).trans (ext_next _)))).trans h3.1.ext
+        refine ⟨e3.trans (ext_setInsert _ _ _ ?_), Or.inr ?_⟩
+        · simp only [InsertDef.badFree, Stmt.badFreeOpt, Bool.and_true]
+          exact harg
+        · simp only [Stmt.badFree, Stmt.badFreeOpt, Bool.and_true]
+          exact harg
+      · have e3 := ext_expectPeek q1.2.next .RPAREN
+        generalize q1.2.next.expectPeek .RPAREN = q3 at e3 ⊢
+        have e13 := (e1.trans (ext_next _)).trans e3
+        split
+        · exact ⟨e13, Or.inl rfl⟩
+        · have h4 := hbody q3.2
+          generalize pbody q3.2 = q4 at h4 ⊢
+          refine ⟨(e13.trans h4.1).trans (ext_setInsert _ _ _ ?_), Or.inr ?_⟩
+          · simp only [InsertDef.badFree, optBF, Stmt.badFreeOpt, Bool.true_and]
+            exact h4.2
+          · simp only [Stmt.badFree, optBF, Stmt.badFreeOpt, Bool.true_and]
+            exact h4.2
+
+theorem componentArg_ok (hpe : ∀ prec p, EOk p (pe prec p)) (p : PS) :
+    Ext p (componentArg pe p).2 ∧
+      ∀ arg, (componentArg pe p).1 = some arg → DG (componentArg pe p).2 (optBF Expr.badFreePairs arg) := by
+  unfold componentArg
+  simp only []
+  split
+  · have h := hpe LOWEST p.next.next
+    generalize pe LOWEST p.next.next = q at h ⊢
+    have e := ((ext_next p).trans (ext_next _)).trans h.1.ext
+    split
+    · rename_i t pairs heq
+      refine ⟨e, ?_⟩
+      intro arg ha
+      cases ha
+      have := h.2
+      rw [heq] at this
+      simp only [optBF]
+      unfold DB at this
+      simp only [Expr.badFree] at this
+      exact this
+    · exact ⟨e.trans (ext_err _ _ _ _), by intro arg ha; cases ha⟩
+  · exact ⟨Ext.rfl' p, by intro arg ha; cases ha; exact DG.tt _⟩
+
+theorem componentSlots_ok (hslots : ∀ acc p, (Dirty p ∨ SlotsGood acc) → SlOk p (pslots acc p)) (p : PS) :
+    SlOk p (componentSlots pslots p) := by
+  have hnil : ∀ q : PS, Dirty q ∨ SlotsGood [] := fun q => Or.inr (by intro s hs; cases hs)
+  unfold componentSlots
+  split
+  · have := hslots [] p.next (hnil _)
+    exact ⟨(ext_next p).trans this.1, this.2⟩
+  · split
+    · split
+      · have := hslots [] p.next.next (hnil _)
+        exact ⟨((ext_next p).trans (ext_next _)).trans this.1, this.2⟩
+      · exact ⟨Ext.rfl' p, hnil _⟩
+    · exact ⟨Ext.rfl' p, hnil _⟩
+
+theorem componentStmt_ok (hpe : ∀ prec p, EOk p (pe prec p))
+    (hslots : ∀ acc p, (Dirty p ∨ SlotsGood acc) → SlOk p (pslots acc p)) (p : PS) :
+    SOk p (parseComponentStmt pe pslots p) := by
+  unfold parseComponentStmt
+  simp only []
+  have e1 := ext_expectPeek p .LPAREN
+  generalize p.expectPeek .LPAREN = q1 at e1 ⊢
+  split
+  · exact ⟨e1, Or.inl rfl⟩
+  · have e2 := (frame_aliasPath q1.2.next "components").ext
+    generalize aliasPath q1.2.next "components" = q2 at e2 ⊢
+    have h3 := componentArg_ok hpe q2.2
+    generalize componentArg pe q2.2 = q3 at h3 ⊢
+    obtain ⟨argR, p3⟩ := q3
+    have e13 := (e1.trans ((ext_next _).trans e2)).trans h3.1
+    cases argR with
+    | none => exact ⟨e13, Or.inl rfl⟩
+    | some arg =>
+      simp only []
+      have e4 := ext_expectPeek p3 .RPAREN
+      generalize p3.expectPeek .RPAREN = q4 at e4 ⊢
+      split
+      · exact ⟨e13.trans e4, Or.inl rfl⟩
+      · have h5 := componentSlots_ok hslots q4.2
+        generalize componentSlots pslots q4.2 = q5 at h5 ⊢
+        refine ⟨((e13.trans e4).trans h5.1).trans (ext_addComponent _ _ _ h5.2), Or.inr ?_⟩
+        simp only [Stmt.badFree]
+        exact DG.mono ((e4.trans h5.1).trans (ext_addComponent _ _ _ h5.2)) (h3.2 arg rfl)
+
+theorem statementBody_ok (hpe : ∀ prec p, EOk p (pe prec p)) (hpl : ∀ t p, LOk p (pl t p))
+    (hbody : ∀ p, BOk p (pbody p))
+    (htail : ∀ t c cons alts p, DG p c.badFree → DG p (Stmt.badFreeList cons) → DG p (Stmt.badFreeAlts alts) →
+      SOk p (ptail t c cons alts p))
+    (hslots : ∀ acc p, (Dirty p ∨ SlotsGood acc) → SlOk p (pslots acc p)) (p : PS) :
+    SOk p (statementBody pe pl pbody ptail pslots p) := by
+  unfold statementBody
+  simp only []
+  split
+  · exact ⟨Ext.rfl' p, Or.inr (DG.tt _)⟩
+  · exact embeddedCode_ok hpe p
+  · exact embeddedCode_ok hpe p
+  · exact ifStmt_ok hpe hbody htail p
+  · exact forStmt_ok hpe hbody p
+  · exact eachStmt_ok hpe hbody p
+  · -- @use
+    split
+    · exact ⟨ext_expectPeek _ _, Or.inl rfl⟩
+    · exact ⟨(ext_expectPeek _ _).trans ((ext_next _).trans ((frame_aliasPath _ _).ext.trans ⟨fun d => d, fun g => g⟩)),
+        Or.inr (DG.tt _)⟩
+  · -- @reserve
+    split
+    · exact ⟨ext_expectPeek _ _, Or.inl rfl⟩
+    · exact ⟨(ext_expectPeek _ _).trans ((ext_next _).trans ⟨fun d => d, fun g => g⟩), Or.inr (DG.tt _)⟩
+  · exact insertStmt_ok hpe hbody p
+  · exact condDirective_ok hpe p _ (fun _ _ => by simp [Stmt.badFree])
+  · exact condDirective_ok hpe p _ (fun _ _ => by simp [Stmt.badFree])
+  · exact componentStmt_ok hpe hslots p
+  · -- @slot
+    split
+    · exact ⟨Ext.rfl' p, Or.inr (DG.tt _)⟩
+    · split
+      · exact ⟨(ext_next _).trans ((ext_next _).trans (ext_expectPeek _ _)), Or.inr (DG.tt _)⟩
+      · exact ⟨(ext_next _).trans ((ext_next _).trans (ext_expectPeek _ _)), Or.inl rfl⟩
+  · -- @dump
+    split
+    · exact ⟨ext_expectPeek _ _, Or.inl rfl⟩
+    · exact ⟨(ext_expectPeek _ _).trans (hpl _ _).1.ext, Or.inr (by simp only [Stmt.badFree]; exact (hpl _ _).2)⟩
+  · exact ⟨Ext.rfl' p, Or.inr (DG.tt _)⟩
+  · exact ⟨Ext.rfl' p, Or.inr (DG.tt _)⟩
+  · exact ⟨Ext.rfl' p, Or.inl rfl⟩
+
+theorem bodyBody_ok (hblock : ∀ acc p, DG p (Stmt.badFreeList acc) → BOk p (pblock acc p)) (p : PS) :
+    BOk p (bodyBody pblock p) := by
+  unfold bodyBody
+  split
+  · exact ⟨Ext.rfl' p, DG.tt _⟩
+  · have := hblock [] p.next (DG.tt _)
+    exact ⟨(ext_next p).trans this.1, this.2⟩
+
+theorem blockStmtBody_ok (hst : ∀ p, SOk p (pst p))
+    (hblock : ∀ acc p, DG p (Stmt.badFreeList acc) → BOk p (pblock acc p)) (acc : List Stmt) (p : PS)
+    (hacc : DG p (Stmt.badFreeList acc)) : BOk p (blockStmtBody pst pblock acc p) := by
+  unfold blockStmtBody
+  simp only []
+  split
+  · exact ⟨Ext.rfl' p, hacc⟩
+  · split
+    · exact ⟨ext_err _ _ _ _, DG.dirty (dirty_err _ _ _ _) _⟩
+    · split
+      · exact ⟨ext_err _ _ _ _, DG.dirty (dirty_err _ _ _ _) _⟩
+      · have h1 := hst p
+        generalize pst p = q1 at h1 ⊢
+        have hacc' : DG q1.2 (Stmt.badFreeList (if q1.1.isBad = true then acc else acc ++ [q1.1])) := by
+          split
+          · exact hacc.mono h1.1
+          · rename_i hb
+            rw [stmt_badFreeList_append]
+            refine (hacc.mono h1.1).and ?_
+            rcases h1.2 with h | h
+            · exact absurd h hb
+            · simpa [Stmt.badFreeList] using h
+        split
+        · exact ⟨h1.1, hacc'⟩
+        · have := hblock _ q1.2.next (hacc'.mono (ext_next _))
+          exact ⟨(h1.1.trans (ext_next _)).trans this.1, this.2⟩
+
+theorem ifTailBody_ok (hpe : ∀ prec p, EOk p (pe prec p)) (hbody : ∀ p, BOk p (pbody p))
+    (htail : ∀ t c cons alts p, DG p c.badFree → DG p (Stmt.badFreeList cons) → DG p (Stmt.badFreeAlts alts) →
+      SOk p (ptail t c cons alts p))
+    (t : Token) (c : Expr) (cons : List Stmt) (alts : List (Expr × List Stmt)) (p : PS)
+    (hc : DG p c.badFree) (hcons : DG p (Stmt.badFreeList cons)) (halts : DG p (Stmt.badFreeAlts alts)) :
+    SOk p (ifTailBody pe pbody ptail t c cons alts p) := by
+  unfold ifTailBody
+  simp only []
+  split
+  · have e1 := ext_expectPeek p .ELSE_IF
+    generalize p.expectPeek .ELSE_IF = q1 at e1 ⊢
+    have h3 := hpe LOWEST q1.2.next.next
+    generalize pe LOWEST q1.2.next.next = q3 at h3 ⊢
+    have e4 := ext_expectPeek q3.2 .RPAREN
+    generalize q3.2.expectPeek .RPAREN = q4 at e4 ⊢
+    have e14 := ((e1.trans ((ext_next _).trans (ext_next _))).trans h3.1.ext).trans e4
+    split
+    · exact ⟨e14, Or.inl rfl⟩
+    · have h5 := hbody q4.2
+      generalize pbody q4.2 = q5 at h5 ⊢
+      have e15 := e14.trans h5.1
+      have := htail t c cons (alts ++ [(q3.1, q5.1)]) q5.2 (hc.mono e15) (hcons.mono e15) (by
+        rw [badFreeAlts_append]
+        refine (halts.mono e15).and ?_
+        simp only [Stmt.badFreeAlts, Bool.and_true]
+        exact (DG.mono (e4.trans h5.1) h3.2).and h5.2)
+      exact ⟨e15.trans this.1, this.2⟩
+  · split
+    · have h1 := hbody p.next
+      generalize pbody p.next = q1 at h1 ⊢
+      have e1 := (ext_next p).trans h1.1
+      split
+      · exact ⟨e1.trans (ext_err _ _ _ _), Or.inl rfl⟩
+      · have e2 := ext_expectPeek q1.2 .END
+        generalize q1.2.expectPeek .END = q2 at e2 ⊢
+        split
+        · refine ⟨e1.trans e2, Or.inr ?_⟩
+          simp only [Stmt.badFree, Stmt.badFreeOpt]
+          exact ((((hc.mono (e1.trans e2)).and (hcons.mono (e1.trans e2))).and (halts.mono (e1.trans e2))).and (h1.2.mono e2))
+        · exact ⟨e1.trans e2, Or.inl rfl⟩
+    · have e2 := ext_expectPeek p .END
+      generalize p.expectPeek .END = q2 at e2 ⊢
+      split
+      · refine ⟨e2, Or.inr ?_⟩
+        simp only [Stmt.badFree, Stmt.badFreeOpt, Bool.and_true]
+        exact (((hc.mono e2).and (hcons.mono e2)).and (halts.mono e2))
+      · exact ⟨e2, Or.inl rfl⟩
+
+theorem slotHeader_ok (p : PS) : Ext p (slotHeader p).2 := by
+  unfold slotHeader
+  simp only []
+  split
+  · split <;> exact (ext_next _).trans ((ext_next _).trans (ext_expectPeek _ _))
+  · exact Ext.rfl' p
+
+theorem slotsBody_ok (hbody : ∀ p, BOk p (pbody p))
+    (hslots : ∀ acc p, (Dirty p ∨ SlotsGood acc) → SlOk p (pslots acc p)) (hskip : ∀ p, Ext p (pskip p))
+    (acc : List SlotUse) (p : PS) (hacc : Dirty p ∨ SlotsGood acc) : SlOk p (slotsBody pbody pslots pskip acc p) := by
+  unfold slotsBody
+  simp only []
+  split
+  · exact ⟨Ext.rfl' p, hacc⟩
+  · have e1 := slotHeader_ok p
+    generalize slotHeader p = q1 at e1 ⊢
+    obtain ⟨hdr, p1⟩ := q1
+    cases hdr with
+    | none => exact ⟨e1, Or.inr (by intro s hs; cases hs)⟩
+    | some name =>
+      simp only []
+      have h2 := hbody p1
+      generalize pbody p1 = q2 at h2 ⊢
+      have e3 : Ext p1 (pskip q2.2.next.next) := h2.1.trans ((ext_next _).trans ((ext_next _).trans (hskip _)))
+      have := hslots (acc ++ [{ tok := p.cur, name := name, body := q2.1 }]) (pskip q2.2.next.next) (by
+        rcases hacc with h | h
+        · exact Or.inl ((e1.trans e3).dirty h)
+        · rcases h2.2 with h' | h'
+          · exact Or.inl (((ext_next _).trans ((ext_next _).trans (hskip _))).dirty h')
+          · right
+            intro s hs
+            rcases List.mem_append.mp hs with hs | hs
+            · exact h s hs
+            · rw [List.mem_singleton.mp hs]; exact h')
+      exact ⟨(e1.trans e3).trans this.1, this.2⟩
+
+theorem skipHtmlBody_ok (hskip : ∀ p, Ext p (pskip p)) (p : PS) : Ext p (skipHtmlBody pskip p) := by
+  unfold skipHtmlBody
+  split
+  · exact (ext_next p).trans (hskip _)
+  · exact Ext.rfl' p
+
+end
+
+/-- the statement parser at every fuel -/
+theorem parseStmt_ok : ∀ fuel : Nat,
+    (∀ p, SOk p (parseStatement fuel p)) ∧
+    (∀ p, BOk p (parseBody fuel p)) ∧
+    (∀ acc p, DG p (Stmt.badFreeList acc) → BOk p (parseBlockStmt fuel acc p)) ∧
+    (∀ t c cons alts p, DG p c.badFree → DG p (Stmt.badFreeList cons) → DG p (Stmt.badFreeAlts alts) →
+      SOk p (parseIfTail fuel t c cons alts p)) ∧
+    (∀ acc p, (Dirty p ∨ SlotsGood acc) → SlOk p (parseSlots fuel acc p)) ∧
+    (∀ p, Ext p (skipHtml fuel p)) := by
+  intro fuel
+  induction fuel with
+  | zero =>
+    refine ⟨?_, ?_, ?_, ?_, ?_, ?_⟩
+    · intro p; exact ⟨(frame_oof p).ext, Or.inl rfl⟩
+    · intro p; exact ⟨(frame_oof p).ext, DG.dirty (dirty_oof p) _⟩
+    · intro acc p _; exact ⟨(frame_oof p).ext, DG.dirty (dirty_oof p) _⟩
+    · intro t c cons alts p _ _ _; exact ⟨(frame_oof p).ext, Or.inl rfl⟩
+    · intro acc p _; exact ⟨(frame_oof p).ext, Or.inl (dirty_oof p)⟩
+    · intro p; exact (frame_oof p).ext
+  | succ n ih =>
+    obtain ⟨ihS, ihB, ihBl, ihT, ihSl, ihSk⟩ := ih
+    obtain ⟨hE, _, hL, _, _⟩ := parseExpr_ok n
+    exact ⟨fun p => statementBody_ok hE hL ihB ihT ihSl p,
+      fun p => bodyBody_ok ihBl p,
+      fun acc p h => blockStmtBody_ok ihS ihBl acc p h,
+      fun t c cons alts p h1 h2 h3 => ifTailBody_ok hE ihB ihT t c cons alts p h1 h2 h3,
+      fun acc p h => slotsBody_ok ihB ihSl ihSk acc p h,
+      fun p => skipHtmlBody_ok ihSk p⟩
+
+end Tw
+
+namespace Tw
+
+theorem parseProgramLoop_ok : ∀ (fuel : Nat) (acc : List Stmt) (p : PS), DG p (Stmt.badFreeList acc) →
+    Ext p (parseProgramLoop fuel acc p).2 ∧
+      ∀ ss, (parseProgramLoop fuel acc p).1 = some ss → DG (parseProgramLoop fuel acc p).2 (Stmt.badFreeList ss)
+  | 0, acc, p, _ => ⟨(frame_oof p).ext, fun _ _ => DG.dirty (dirty_oof p) _⟩
+  | fuel + 1, acc, p, hacc => by
+    unfold parseProgramLoop
+    simp only []
+    split
+    · exact ⟨Ext.rfl' p, by intro ss h; cases h; exact hacc⟩
+    · have h1 := (parseStmt_ok fuel).1 p
+      generalize parseStatement fuel p = q1 at h1 ⊢
+      split
+      · exact ⟨h1.1.trans (ext_err _ _ _ _), by intro ss h; cases h⟩
+      · have hacc' : DG q1.2.next (Stmt.badFreeList (if q1.1.isBad = true then acc else acc ++ [q1.1])) := by
+          split
+          · exact hacc.mono (h1.1.trans (ext_next _))
+          · rename_i hb
+            rw [stmt_badFreeList_append]
+            refine (hacc.mono (h1.1.trans (ext_next _))).and ?_
+            rcases h1.2 with h | h
+            · exact absurd h hb
+            · exact DG.mono (ext_next _) (by simpa [Stmt.badFreeList] using h)
+        have := parseProgramLoop_ok fuel _ q1.2.next hacc'
+        exact ⟨(h1.1.trans (ext_next _)).trans this.1, this.2⟩
+
+/-- what `parseSource` returns as a program has no `bad` node anywhere: not in its statements,
+    not in the `@insert` table, not in the slot bodies of its component uses -/
+structure Program.Whole (prog : Program) : Prop where
+  stmts : Stmt.badFreeList prog.stmts = true
+  inserts : ∀ x ∈ prog.inserts, x.2.badFree = true
+  slots : ∀ cu ∈ prog.components, SlotsGood cu.slots
+
+theorem finishParse_ok (ic : Bool) (first : Token) (stmts : Option (List Stmt)) (p1 : PS) (prog : Program)
+    (h : finishParse ic first stmts p1 = .ok prog) :
+    ¬ Dirty p1 ∧ prog.stmts = stmts.getD [] ∧ prog.inserts = p1.inserts ∧ prog.components = p1.components := by
+  have clean : ∀ q : PS, ¬ q.oof = true → q.errors = [] → ¬ Dirty q := by
+    intro q h1 h2 hd
+    rcases hd with hd | hd
+    · exact hd h2
+    · exact h1 hd
+  unfold finishParse at h
+  cases stmts with
+  | none =>
+    simp only [] at h
+    split at h
+    · cases h
+    · split at h
+      · cases h
+      · cases h
+        exact ⟨clean p1 ‹_› ‹_›, rfl, rfl, rfl⟩
+  | some ss =>
+    cases ic with
+    | true =>
+      simp only [if_true] at h
+      split at h
+      · cases h
+      · split at h
+        · cases h
+        · rename_i he
+          exact absurd he (by simp [PS.err])
+    | false =>
+      simp only [Bool.false_eq_true, if_false] at h
+      split at h
+      · cases h
+      · split at h
+        · cases h
+        · cases h
+          exact ⟨clean p1 ‹_› ‹_›, rfl, rfl, rfl⟩
+
+theorem parseSource_whole (src : Bytes) (base : Nat) (prog : Program) (h : parseSource src base = .ok prog) :
+    prog.Whole := by
+  unfold parseSource at h
+  split at h
+  · cases h
+  · rename_i lr _
+    split at h
+    · cases h
+    · have hg0 : Good (initParser lr.toks base) := by
+        have f : Frame ({ toks := lr.toks, nextId := base } : PS) (initParser lr.toks base) := by
+          unfold initParser
+          simp only []
+          split
+          · exact (frame_noteIllegal _ _).trans (frame_noteIllegal _ _)
+          · exact frame_noteIllegal _ _
+        exact f.ext.good (Or.inr ⟨fun x hx => (by cases hx), fun x hx => (by cases hx)⟩)
+      have hl := parseProgramLoop_ok (parseFuel lr.toks) [] (initParser lr.toks base) (DG.tt _)
+      obtain ⟨hc, h1, h2, h3⟩ := finishParse_ok _ _ _ _ _ h
+      have hg := (hl.1.good hg0).resolve_left hc
+      refine ⟨?_, by rw [h2]; exact hg.1, by rw [h3]; exact hg.2⟩
+      rw [h1]
+      cases hs : (parseProgramLoop (parseFuel lr.toks) [] (initParser lr.toks base)).1 with
+      | none => rfl
+      | some ss => exact (hl.2 ss hs).resolve_left hc
+
+end Tw
